@@ -1,4 +1,6 @@
 import GoldModel.Lemmas.ExprText
+import GoldModel.Lemmas.ExprTextG
+import GoldModel.Props.C05
 /-!
 # C06 — the expression round trip at TEXT level
 
@@ -20,6 +22,12 @@ Vocabulary (`Model/Render.lean`, `Lemmas/ExprText.lean`):
   literals), `Ex.words`, `Ex.text e = render e.words`, `toTok` = a lexer token as the parser sees it;
 * `Ex.place e off` = `e` with every token's range replaced by the range of its word in the text
   (nothing else changes); `Ex.Spelled upper e` = every token of `e` has a valid spelling.
+
+Arbitrary layout (`Lemmas/LexRenderG.lean`, `Lemmas/ExprTextG.lean`): a `Layout` gives the run of blank
+chars (space, tab, LF, CR) written before each word; `gapsOk true gws` = every gap is blank and every gap
+but the first is non-empty; `renderG gws` = the text (it may span lines), `expectG 0 [] gws` = the tokens
+with the offsets, lines and columns the gaps produce; `Ex.placeG e gws` = `e` with the lexer's ranges for
+that text.  `render` / `expect` / `Ex.place` are the special case of one space per gap.
 
 All statements are for every `upper` (the stand-in for `str::to_uppercase`), every word list /
 expression, no bound on sizes.
@@ -183,6 +191,78 @@ theorem text_roundtrip_memo (e : Ex) (h : e.WF 8) (hs : e.Spelled upper) :
 theorem place_text (e : Ex) (off : Nat) : (e.place off).text = e.text := by
   simp only [Ex.text, place_words]
 
+/-! ## arbitrary layout: any non-empty run of blanks between the words, any blanks around the text -/
+
+/-- **`lex (layout of ws) = (the tokens of ws, no error)`** for every list of valid words, every choice
+    of blank gaps (space, tab, LF, CR; non-empty between two words) and every blank tail: the text may span
+    lines. -/
+theorem lex_render_layout (gws : Layout) (tr : List Char) (hv : ∀ gw ∈ gws, gw.2.Valid upper)
+    (hg : gapsOk true gws) (htr : ∀ c ∈ tr, isBlank c) :
+    lex upper (renderG gws ++ tr) = (expectG 0 [] gws, []) :=
+  lexLoop_renderG upper gws tr hv htr true _ 0 [] hg (Nat.lt_succ_self _)
+
+/-- what `expectG` says, field by field: as many tokens as words; the `i`-th has the kind and value of the
+    `i`-th word, extent = length of its spelling, the spelling stands at its offset in the text, its start
+    is the TRUE line and column of that offset (number of line feeds before it, chars since the last one)
+    and its end is `value.len()` columns further on the same line. -/
+theorem lex_render_layout_fields (gws : Layout) (tr : List Char) (hv : ∀ gw ∈ gws, gw.2.Valid upper)
+    (hg : gapsOk true gws) (htr : ∀ c ∈ tr, isBlank c) :
+    (lex upper (renderG gws ++ tr)).1.length = gws.length ∧
+    ∀ i (hi : i < gws.length) (hi' : i < (lex upper (renderG gws ++ tr)).1.length),
+      let t := (lex upper (renderG gws ++ tr)).1[i]
+      t.kind = gws[i].2.kind ∧ t.value = gws[i].2.value ∧ t.extent = gws[i].2.spelling.length ∧
+      ((renderG gws ++ tr).drop t.off).take gws[i].2.spelling.length = gws[i].2.spelling ∧
+      t.start = trueLineCol (renderG gws ++ tr) t.off ∧
+      t.stop = ⟨t.start.line, t.start.col + utf8Len t.value⟩ := by
+  have hlin := C05.lex_linecol_all upper (renderG gws ++ tr)
+  rw [lex_render_layout upper gws tr hv hg htr] at hlin ⊢
+  refine ⟨expectG_length 0 [] gws, ?_⟩
+  intro i hi hi'
+  have hkv := expectG_kv 0 [] gws
+  have hkvi := congrArg (fun l => l[i]?) hkv
+  simp only [List.getElem?_map, List.getElem?_eq_getElem hi, List.getElem?_eq_getElem hi', Option.map_some,
+    Option.some.injEq, Prod.mk.injEq] at hkvi
+  have hat := expectG_at [] [] gws tr i hi hi'
+  simp only [List.nil_append, List.length_nil] at hat
+  have hmem : (expectG 0 [] gws)[i] ∈ expectG 0 [] gws := List.getElem_mem hi'
+  exact ⟨hkvi.1, hkvi.2.1, hkvi.2.2, hat, hlin _ hmem, expectG_stop 0 [] gws _ hmem⟩
+
+/-- the single-space printer is a layout -/
+theorem render_is_layout (ws : List Word) : renderG (spaced true ws) = render ws ∧ gapsOk true (spaced true ws) := by
+  refine ⟨?_, gapsOk_spaced true ws⟩
+  induction ws with
+  | nil => rfl
+  | cons w ws ih =>
+    cases ws with
+    | nil => simp [spaced, renderG, render]
+    | cons w' ws' =>
+      simp only [spaced, renderG, render, if_true, List.nil_append] at ih ⊢
+      simp only [Bool.false_eq_true, if_false, List.cons_append, List.nil_append]
+      rw [← ih]
+
+/-- **the lexer gives back the tokens, whatever the layout** -/
+theorem text_tokens_layout (e : Ex) (hs : e.Spelled upper) (gws : Layout) (hl : gws.map (·.2) = e.words)
+    (hg : gapsOk true gws) (tr : List Char) (htr : ∀ c ∈ tr, isBlank c) :
+    (lex upper (renderG gws ++ tr)).1.map toTok = (e.placeG gws).toks ∧ (lex upper (renderG gws ++ tr)).2 = [] := by
+  have hv : ∀ gw ∈ gws, gw.2.Valid upper := by
+    intro gw hgw
+    exact hs gw.2 (by rw [← hl]; exact List.mem_map_of_mem hgw)
+  rw [lex_render_layout upper gws tr hv hg htr, placeG_toks e gws hl]
+  exact ⟨rfl, rfl⟩
+
+/-- **TEXT-level round trip for every layout**: print the words of a well-formed, validly spelled
+    expression with any blank gaps (spaces, tabs, line ends; non-empty between two words) and any blanks
+    behind — the lexer reports no error and `parse_expr` on its tokens returns the tree of `e` at the
+    positions of that text, consumes everything and emits no diagnostic. -/
+theorem text_roundtrip_layout (e : Ex) (h : e.WF 8) (hs : e.Spelled upper) (gws : Layout)
+    (hl : gws.map (·.2) = e.words) (hg : gapsOk true gws) (tr : List Char) (htr : ∀ c ∈ tr, isBlank c) :
+    (lex upper (renderG gws ++ tr)).2 = [] ∧
+    ∃ f, runP Γ Δ f (.ref nExpr) ((lex upper (renderG gws ++ tr)).1.map toTok) = (.ok [] (e.placeG gws).tree, []) := by
+  obtain ⟨h1, h2⟩ := text_tokens_layout upper e hs gws hl hg tr htr
+  refine ⟨h2, ?_⟩
+  rw [h1]
+  exact expr_roundtrip_eof (e.placeG gws) ((placeG_WF e gws 8).mpr h)
+
 /-! ## non-vacuity: `a + b * ( c - d ) < x or y` -/
 
 private def tk (k : Kind) (v : String) : Tok := ⟨k, v, Range.zero⟩
@@ -218,6 +298,38 @@ example : ∃ f, runP Γ Δ f (.ref nExpr) ((lex Lex.asciiUpper "a + b * ( c - d
   have h := (text_roundtrip Lex.asciiUpper sample ((wfb_iff _ 8).mp (by decide +kernel))
     (spelledb_sound _ (by decide +kernel))).2
   have ht : sample.text = "a + b * ( c - d ) < x or y".toList := by decide +kernel
+  rw [ht] at h; exact h
+
+/-! ### the same expression on three lines, with tabs, a CRLF line end, leading and trailing blanks -/
+
+private def sampleGaps : List String := ["  ", " ", "\n   ", " ", " ", " ", "\t", " ", " ", "\r\n ", " ", " ", " "]
+private def sampleLayout : Layout := (sampleGaps.map String.toList).zip sample.words
+private def sampleTail : List Char := " \n".toList
+
+example : String.ofList (renderG sampleLayout ++ sampleTail) = "  a +\n   b * ( c\t- d )\r\n < x or y \n" := by
+  decide +kernel
+example : sampleLayout.map (·.2) = sample.words := by decide +kernel
+example : gapsOk true sampleLayout := by decide +kernel
+
+/-- evaluated: kinds, lines and columns of the model lexer's tokens on that text -/
+example : ((lex Lex.asciiUpper "  a +\n   b * ( c\t- d )\r\n < x or y \n".toList).1.map
+      (fun t => (t.kind, t.start.line, t.start.col, t.stop.col)),
+           (lex Lex.asciiUpper "  a +\n   b * ( c\t- d )\r\n < x or y \n".toList).2)
+    = ([(.Identifier, 0, 2, 3), (.Plus, 0, 4, 5), (.Identifier, 1, 3, 4), (.Asterisk, 1, 5, 6), (.OBracket, 1, 7, 8),
+        (.Identifier, 1, 9, 10), (.Minus, 1, 11, 12), (.Identifier, 1, 13, 14), (.CBracket, 1, 15, 16),
+        (.LessThan, 2, 1, 2), (.Identifier, 2, 3, 4), (.Or, 2, 5, 7), (.Identifier, 2, 8, 9)], []) := by decide +kernel
+
+example : (lex Lex.asciiUpper (renderG sampleLayout ++ sampleTail)).1.map toTok = (sample.placeG sampleLayout).toks := by
+  decide +kernel
+
+/-- the theorem applies -/
+example : ∃ f, runP Γ Δ f (.ref nExpr)
+      ((lex Lex.asciiUpper "  a +\n   b * ( c\t- d )\r\n < x or y \n".toList).1.map toTok)
+    = (.ok [] (sample.placeG sampleLayout).tree, []) := by
+  have h := (text_roundtrip_layout Lex.asciiUpper sample ((wfb_iff _ 8).mp (by decide +kernel))
+    (spelledb_sound _ (by decide +kernel)) sampleLayout (by decide +kernel) (by decide +kernel) sampleTail
+    (by decide +kernel)).2
+  have ht : renderG sampleLayout ++ sampleTail = "  a +\n   b * ( c\t- d )\r\n < x or y \n".toList := by decide +kernel
   rw [ht] at h; exact h
 
 /-- every class of word, and the careful cases: two-character operators next to one-character ones,
